@@ -46,6 +46,7 @@ const (
 	OpIAdd
 	OpISub
 	OpIMul
+	OpIDiv // SMT-LIB div (floor for a positive divisor)
 	OpILt
 	OpILe
 	OpToReal
@@ -286,6 +287,19 @@ func (tb *TermBank) intArith(op Op, a, b *Term) *Term {
 		}
 	}
 	return tb.bin(iop, a.w, a, b)
+}
+
+// IntQuoConst is Go's truncating a / c for a mathematical-integer term and a constant c > 0:
+// ite(a >= 0, div a c, -(div (-a) c)). Linear for the solver (constant divisor).
+func (tb *TermBank) IntQuoConst(a *Term, c int64) *Term {
+	if a.IsConst() {
+		return tb.Const(uint64(int64(a.val)/c), SortInt)
+	}
+	cc := tb.Const(uint64(c), SortInt)
+	zero := tb.Const(0, SortInt)
+	pos := tb.bin(OpIDiv, SortInt, a, cc)
+	neg := tb.intArith(OpSub, zero, tb.bin(OpIDiv, SortInt, tb.intArith(OpSub, zero, a), cc))
+	return tb.Ite(tb.Cmp(OpILe, zero, a), pos, neg)
 }
 
 func (tb *TermBank) Not(a *Term) *Term { // bvnot
@@ -576,7 +590,7 @@ var opNames = map[Op]string{
 	OpNot: "bvnot", OpNeg: "bvneg", OpShl: "bvshl", OpLShr: "bvlshr", OpAShr: "bvashr",
 	OpConcat: "concat", OpEq: "=", OpULt: "bvult", OpULe: "bvule", OpSLt: "bvslt", OpSLe: "bvsle",
 	OpBAnd: "and", OpBOr: "or", OpBNot: "not", OpIte: "ite",
-	OpIAdd: "+", OpISub: "-", OpIMul: "*", OpILt: "<", OpILe: "<=", OpToReal: "to_real", OpToInt: "to_int",
+	OpIAdd: "+", OpISub: "-", OpIMul: "*", OpIDiv: "div", OpILt: "<", OpILe: "<=", OpToReal: "to_real", OpToInt: "to_int",
 }
 
 // body returns the SMT-LIB expression of a non-leaf term in terms of refs of its args.
